@@ -33,9 +33,12 @@ def do_import(src):
             d = os.path.join(out, k)
             if not all(os.path.exists(os.path.join(d, f)) for f in ("patch.diff", "demo.py", "meta.json")):
                 continue
-            dst = os.path.join(BENIGN, "%s-%s" % (pid, k))
-            if os.path.exists(dst):
+            patch_text = open(os.path.join(d, "patch.diff"), encoding="utf-8", errors="replace").read()
+            existing = [n for n in os.listdir(BENIGN) if n.startswith(pid + "-")]
+            if any(open(os.path.join(BENIGN, n, "patch.diff"), encoding="utf-8", errors="replace").read() == patch_text
+                   for n in existing if os.path.exists(os.path.join(BENIGN, n, "patch.diff"))):
                 continue
+            dst = os.path.join(BENIGN, "%s-%d" % (pid, 1 + max([int(n.split("-")[1]) for n in existing] or [0])))
             os.makedirs(dst)
             for name in ("patch.diff", "demo.py", "meta.json", "argument.md"):
                 if os.path.exists(os.path.join(d, name)):
